@@ -173,7 +173,7 @@ Qed.
 Lemma tap_count_ok_spec n N alpha eps : tap_count_ok n N alpha eps = true ->
   (n <= N)%nat /\ (n = N \/ (1 - alpha) ^ (Z.of_nat (S n)) <= eps).
 Proof.
-  unfold tap_count_ok. rewrite !andb_true_iff, orb_true_iff. intros [[[_ H2] _] H4].
+  unfold tap_count_ok. rewrite !andb_true_iff, orb_true_iff. intros [[_ H2] H4].
   apply Nat.leb_le in H2. split; [exact H2|].
   destruct H4 as [H4|H4]; [left; apply Nat.eqb_eq; exact H4|right; apply Qle_bool_iff; exact H4].
 Qed.
@@ -273,4 +273,160 @@ Proof.
     by (rewrite Ez; apply axis_close_intro; assumption).
   split; [exact Cx|]. split; [exact Cy|]. split; [exact Cz|]. split; [exact En|].
   rewrite Eo. apply ok_iff.
+Qed.
+
+(* ---------------------------------------------------------------------------------------------- *)
+(* sign case of homogeneity *)
+Lemma pns_homogeneous_neg h gamma dt p1 p2 taps c g : c < 0 ->
+  leq (pns_axis lowpass_fir h gamma dt p1 p2 taps (map (Qmult c) g))
+      (map (Qmult (- c)) (pns_axis lowpass_fir h gamma dt p1 p2 taps g)).
+Proof.
+  intros Hc. etransitivity; [apply pns_homogeneous|].
+  apply leq_map_ext. intros a. rewrite Qabs_neg by lra. reflexivity.
+Qed.
+Lemma pns_sign_invariant h gamma dt p1 p2 taps g :
+  leq (pns_axis lowpass_fir h gamma dt p1 p2 taps (map (Qmult (-1)) g))
+      (pns_axis lowpass_fir h gamma dt p1 p2 taps g).
+Proof.
+  etransitivity; [apply pns_homogeneous|].
+  rewrite <- (map_id (pns_axis lowpass_fir h gamma dt p1 p2 taps g)) at 2.
+  apply leq_map_ext. intros a. change (Qabs (-1)) with 1. ring.
+Qed.
+
+(* ---------------------------------------------------------------------------------------------- *)
+(* time-shift invariance: m leading zero samples (all gradients delayed by m raster steps) delay the
+   prediction by m samples *)
+Lemma diffq_zeros_prefix m l : leq (diffq (zeros (S m) ++ l)) (zeros m ++ diffq (0 :: l)).
+Proof.
+  induction m.
+  - reflexivity.
+  - change (zeros (S (S m)) ++ l) with (0 :: (zeros (S m) ++ l)).
+    change (zeros (S m) ++ l) with (0 :: (zeros m ++ l)) in *.
+    cbn [diffq]. change (zeros (S m) ++ diffq (0 :: l)) with (0 :: (zeros m ++ diffq (0 :: l))).
+    constructor; [ring|exact IHm].
+Qed.
+
+Lemma slew_shift dt gamma m g :
+  leq (dgdt dt (0 :: to_tesla gamma (zeros m ++ g))) (zeros m ++ dgdt dt (0 :: to_tesla gamma g)).
+Proof.
+  unfold dgdt, to_tesla. rewrite map_app.
+  assert (P : leq (0 :: map (fun x => x / gamma) (zeros m) ++ map (fun x => x / gamma) g)
+                  (zeros (S m) ++ map (fun x => x / gamma) g)).
+  { change (zeros (S m) ++ map (fun x => x / gamma) g) with (0 :: (zeros m ++ map (fun x => x / gamma) g)).
+    constructor; [reflexivity|]. apply leq_app; [|reflexivity]. apply map_zeros. unfold Qdiv. ring. }
+  etransitivity; [apply leq_map with (g := fun d => d / dt); [intros a b E; rewrite E; reflexivity|]|].
+  - etransitivity; [apply diffq_leq, P|apply diffq_zeros_prefix].
+  - rewrite map_app. apply leq_app; [|reflexivity]. apply map_zeros. unfold Qdiv. ring.
+Qed.
+
+Lemma scan_zeros f m : forall hist, (forall h, Forall (fun z => z == 0) h -> f h == 0) ->
+  Forall (fun z => z == 0) hist -> leq (scan f hist (zeros m)) (zeros m).
+Proof.
+  induction m; intros hist Hf Hh; cbn [zeros repeat scan]; constructor.
+  - apply Hf. constructor; [reflexivity|exact Hh].
+  - apply IHm; [exact Hf|]. constructor; [reflexivity|exact Hh].
+Qed.
+Lemma fir_shift alpha n m d : leq (lowpass_fir alpha n (zeros m ++ d)) (zeros m ++ lowpass_fir alpha n d).
+Proof.
+  rewrite !fir_as_scan, scan_app. apply leq_app.
+  - apply scan_zeros; [|constructor]. intros h Hh. rewrite firF_spec.
+    rewrite <- (app_nil_l h). rewrite hsumn_app_zeros by exact Hh.
+    destruct n; cbn [hsumn]; ring.
+  - change (rev (zeros m) ++ []) with ([] ++ (rev (zeros m) ++ [])).
+    apply scan_hist_pad. intros h. rewrite !firF_spec. rewrite hsumn_app_zeros; [reflexivity|].
+    rewrite app_nil_r. apply Forall_rev. apply Forall_zeros.
+Qed.
+
+Lemma ladd_zeros_prefix m a b : leq (ladd (zeros m ++ a) (zeros m ++ b)) (zeros m ++ ladd a b).
+Proof.
+  unfold ladd. induction m; [reflexivity|]. cbn [zeros repeat app zipw]. constructor; [ring|exact IHm].
+Qed.
+
+Lemma branch_shift h dtms b n m d X : leq X (zeros m ++ d) ->
+  leq (branch_out lowpass_fir h dtms b n X) (zeros m ++ branch_out lowpass_fir h dtms b n d).
+Proof.
+  intros HX. unfold branch_out.
+  set (alpha := alpha_of dtms (hw_tau h (b_tau b))). set (w := hw_a h (b_weight b)).
+  assert (I : leq (lowpass_fir alpha n (if b_abs_in b then map Qabs X else X))
+                  (zeros m ++ lowpass_fir alpha n (if b_abs_in b then map Qabs d else d))).
+  { destruct (b_abs_in b).
+    - etransitivity; [apply fir_leq; etransitivity; [apply abs_leq, HX|]|apply fir_shift].
+      rewrite map_app, map_abs_zeros. reflexivity.
+    - etransitivity; [apply fir_leq, HX|apply fir_shift]. }
+  assert (O : leq (if b_abs_out b then map Qabs (lowpass_fir alpha n (if b_abs_in b then map Qabs X else X))
+                   else lowpass_fir alpha n (if b_abs_in b then map Qabs X else X))
+                  (zeros m ++ (if b_abs_out b then map Qabs (lowpass_fir alpha n (if b_abs_in b then map Qabs d else d))
+                               else lowpass_fir alpha n (if b_abs_in b then map Qabs d else d)))).
+  { destruct (b_abs_out b); [|exact I].
+    etransitivity; [apply abs_leq, I|]. rewrite map_app, map_abs_zeros. reflexivity. }
+  etransitivity; [apply Qmult_leq, O|]. rewrite map_app. apply leq_app; [|reflexivity].
+  apply map_zeros. ring.
+Qed.
+
+Lemma stim_sum_shift h dtms bs : forall taps m d X, leq X (zeros m ++ d) ->
+  leq (stim_sum lowpass_fir h dtms bs taps X) (zeros m ++ stim_sum lowpass_fir h dtms bs taps d).
+Proof.
+  induction bs as [|b bs IH]; intros taps m d X HX; cbn [stim_sum].
+  - apply leq_length in HX. rewrite HX, app_length, length_zeros, zeros_app. reflexivity.
+  - etransitivity; [|apply ladd_zeros_prefix]. unfold ladd. apply leq_zipw.
+    + intros a b0 c d0 E1 E2. rewrite E1, E2. reflexivity.
+    + apply branch_shift. exact HX.
+    + apply IH. exact HX.
+Qed.
+
+Lemma pns_direct_shift h gamma dt taps m g :
+  leq (pns_direct lowpass_fir h gamma dt taps (zeros m ++ g))
+      (zeros m ++ pns_direct lowpass_fir h gamma dt taps g).
+Proof.
+  unfold pns_direct, pns_model.
+  pose proof (stim_sum_shift h (dt * ms_factor) branches taps m _ _ (slew_shift dt gamma m g)) as S.
+  etransitivity; [apply Qmult_leq; apply leq_map with (g := fun s => Qred (s / stim_limit h * g_scale h * pct));
+                  [intros a b E; rewrite E; reflexivity|exact S]|].
+  rewrite !map_app. apply leq_app; [|reflexivity].
+  etransitivity; [apply Qmult_leq; apply map_zeros; rewrite Qred_correct; unfold Qdiv; ring|].
+  apply map_zeros. ring.
+Qed.
+
+Lemma pns_time_shift h gamma dt p p2 taps m g :
+  leq (pns_axis lowpass_fir h gamma dt (S p) p2 taps (zeros m ++ g))
+      (zeros m ++ pns_axis lowpass_fir h gamma dt (S p) p2 taps g).
+Proof.
+  etransitivity; [apply unpad_indices|].
+  etransitivity; [apply pns_direct_shift|].
+  apply leq_app; [reflexivity|]. symmetry. apply unpad_indices.
+Qed.
+
+(* ---------------------------------------------------------------------------------------------- *)
+(* one axis under the tap-count side condition: error <= |g_scale/stim_limit| 2 eps M sum|a| *)
+Lemma alpha_le_half d tau : 0 < d -> d <= tau -> alpha_of d tau <= 1 # 2.
+Proof. intros Hd Ht. unfold alpha_of. apply Qle_shift_div_r; lra. Qed.
+Lemma branches_alpha_half h d : 0 < d -> d <= tau1 h -> d <= tau2 h -> d <= tau3 h ->
+  Forall (fun b => 0 <= alpha_of d (hw_tau h (b_tau b)) /\ alpha_of d (hw_tau h (b_tau b)) <= 1 # 2) branches.
+Proof.
+  intros Hd H1 H2 H3. unfold branches.
+  repeat constructor; cbn [b_tau hw_tau];
+    try (apply alpha_of_range; lra); try (apply alpha_le_half; lra).
+Qed.
+Lemma lowpass_eps_nonneg : 0 <= lowpass_eps.
+Proof. unfold Qle; simpl; lia. Qed.
+
+Lemma axis_error_eps h gamma dt p p2 taps N g M k :
+  0 < dt -> dt * ms_factor <= tau1 h -> dt * ms_factor <= tau2 h -> dt * ms_factor <= tau3 h ->
+  taps_ok h (dt * ms_factor) branches taps N = true -> (length g <= N)%nat ->
+  Forall (fun v => Qabs v <= M) (dgdt dt (0 :: to_tesla gamma g)) -> (k < length g)%nat ->
+  Qabs (nth k (pns_axis lowpass_fir h gamma dt (S p) p2 taps g) 0 - nth k (safe_axis h gamma dt g) 0)
+  <= Qabs (g_scale h / stim_limit h) * (2 * lowpass_eps * M * weight_sum h branches).
+Proof.
+  intros Hd H1 H2 H3 Hok HN HM Hk.
+  pose proof (ms_dt_pos dt Hd) as Hdm.
+  assert (HM0 : 0 <= M).
+  { assert (L : length (dgdt dt (0 :: to_tesla gamma g)) = length g) by apply length_dgdt0.
+    destruct (dgdt dt (0 :: to_tesla gamma g)) as [|v x]; [simpl in L; lia|].
+    inversion HM; subst. eapply Qle_trans; [apply Qabs_nonneg|eassumption]. }
+  eapply Qle_trans; [apply axis_is_safe_model; try eassumption; lra|].
+  apply Qmult_le_l'; [apply Qabs_nonneg|].
+  apply (trunc_bound_eps h (dt * ms_factor) branches taps (length g) N M lowpass_eps); try assumption.
+  - apply lowpass_eps_nonneg.
+  - apply branches_alpha_half; assumption.
+  - intros; apply Qle_refl.
 Qed.
